@@ -791,6 +791,52 @@ theorem keepRelative_relative_untouched (e : Edit) (r : Spec.Ref) (h : noAbs r) 
   cases r <;> simp only [noAbs] at h <;>
     simp [Spec.shiftRef, Spec.shiftCol, Spec.shiftRow, Spec.slideRef, Spec.slideCol, Spec.slideRow, Spec.moves, h]
 
+/-! ### `keepRelative` with mixed `$`: only the edited axis matters -/
+
+/-- every endpoint carries `$` on the coordinate of the edited axis (`$` on the other axis is
+irrelevant: `A$1` under a row edit, `$A1` under a column edit) -/
+def absOnAxis (d : Dir) : Spec.Ref → Prop
+  | .cell c r => match d with | .cols => c.abs = true | .rows => r.abs = true
+  | .range c1 r1 c2 r2 => match d with
+    | .cols => c1.abs = true ∧ c2.abs = true
+    | .rows => r1.abs = true ∧ r2.abs = true
+  | .cols c1 c2 => match d with | .cols => c1.abs = true ∧ c2.abs = true | .rows => True
+  | .rows r1 r2 => match d with | .cols => True | .rows => r1.abs = true ∧ r2.abs = true
+
+/-- no endpoint carries `$` on the coordinate of the edited axis -/
+def relOnAxis (d : Dir) : Spec.Ref → Prop
+  | .cell c r => match d with | .cols => c.abs = false | .rows => r.abs = false
+  | .range c1 r1 c2 r2 => match d with
+    | .cols => c1.abs = false ∧ c2.abs = false
+    | .rows => r1.abs = false ∧ r2.abs = false
+  | .cols c1 c2 => match d with | .cols => c1.abs = false ∧ c2.abs = false | .rows => True
+  | .rows r1 r2 => match d with | .cols => True | .rows => r1.abs = false ∧ r2.abs = false
+
+/-- **keepRelative_axis_abs_eq** — mixed `$` references under `keepRelative`: an edit only touches one
+axis, so a reference whose coordinates ON THAT AXIS are all absolute (whatever the `$` of the other
+axis: `A$1`, `$A1:$B7`, `A$1:B$9` …) is relocated exactly as in a cell formula … -/
+theorem keepRelative_axis_abs_eq (e : Edit) (r : Spec.Ref) (h : absOnAxis e.dir r) :
+    Spec.shiftRef true e r = Spec.shiftRef false e r := by
+  cases hd : e.dir <;> cases r <;> simp only [absOnAxis, hd] at h <;>
+    simp [Spec.shiftRef, Spec.shiftCol, Spec.shiftRow, Spec.moves, hd, h]
+
+/-- **denote_shift_defined_name_mixed** — … and therefore still denotes the same cells -/
+theorem denote_shift_defined_name_mixed (e : Edit) (hn : 0 ≤ e.num) (r r' : Spec.Ref) (p p' : Nat × Nat)
+    (ha : absOnAxis e.dir r) (hs : Spec.shiftRef true e r = some r') (hp : Spec.shiftPos e p = some p')
+    (hok : posOk p) (hok' : posOk p') : Spec.denote r' p' ↔ Spec.denote r p := by
+  rw [keepRelative_axis_abs_eq e r ha] at hs
+  exact denote_shift e hn r r' p p' hs hp hok hok'
+
+/-- **keepRelative_axis_rel_untouched** — dually, a reference whose coordinates on the edited axis are
+all relative is left untouched (same positions), whatever the `$` on the other axis. What is left is a
+range with one absolute and one relative corner on the edited axis (`A$1:A5` under a row edit): the
+absolute corner moves, the relative one stays (`Spec.shiftRow`), and no "same cells" statement exists
+for it — Excel's defined names behave the same way. -/
+theorem keepRelative_axis_rel_untouched (e : Edit) (r : Spec.Ref) (h : relOnAxis e.dir r) :
+    Spec.shiftRef true e r = some r ∧ Spec.slideRef true e r = r := by
+  cases hd : e.dir <;> cases r <;> simp only [relOnAxis, hd] at h <;>
+    simp [Spec.shiftRef, Spec.shiftCol, Spec.shiftRow, Spec.slideRef, Spec.slideCol, Spec.slideRow, Spec.moves, hd, h]
+
 /-! ## "Evaluates to the same result": the rewrite joined with C08's evaluator -/
 
 /-- **eval_invariant_under_shift** (DESIGN §4/C07) — for C08's reference evaluator `Calc.Spec.eval`
@@ -1130,6 +1176,84 @@ theorem shared_range_translated (c1 r1 c2 r2 : Nat) (dCol dRow : Int)
   · intro p hp1 hp2
     simp only [Spec.denote, tr, Nat.min_def, Nat.max_def]
     split <;> split <;> split <;> split <;> omega
+
+/-- **shared_cell_any_markers** — `shiftCell` on a cell reference with ANY `$` combination: exactly the
+coordinates without `$` are translated by the offset, the others are kept (`A$1`, `$A1` included). -/
+theorem shared_cell_any_markers (c : Spec.ColEnd) (r : Spec.RowEnd) (dCol dRow : Int)
+    (hc : Spec.colOk c) (hr : Spec.rowOk r)
+    (hc' : c.abs = false → 1 ≤ (c.n : Int) + dCol ∧ (c.n : Int) + dCol ≤ Facts.MaxColumns)
+    (hr' : r.abs = false → 1 ≤ (r.n : Int) + dRow ∧ (r.n : Int) + dRow ≤ Facts.TotalRows) :
+    Impl.shiftCell dCol dRow (Spec.render (.cell c r)) =
+      Spec.render (.cell ⟨c.abs, if c.abs then c.n else tr c.n dCol⟩ ⟨r.abs, if r.abs then r.n else tr r.n dRow⟩) := by
+  obtain ⟨ca, cn⟩ := c
+  obtain ⟨ra, rn⟩ := r
+  obtain ⟨hc1, hc2⟩ := hc
+  obtain ⟨hr1, hr2⟩ := hr
+  simp only at hc1 hc2 hr1 hr2 hc' hr'
+  unfold Impl.shiftCell
+  have e : Spec.render (.cell ⟨ca, cn⟩ ⟨ra, rn⟩) = Spec.renderCol ⟨ca, cn⟩ ++ Spec.renderRow ⟨ra, rn⟩ := rfl
+  rw [e, splitColon_none _ (cellText_noColon _ _)]
+  simp only [List.map_cons, List.map_nil, Impl.joinColon]
+  cases ca <;> cases ra
+  · have a := hc' rfl; have b := hr' rfl
+    simp only [tr, Bool.false_eq_true, if_false]
+    exact shiftPart_relative cn rn dCol dRow hc1 hc2 hr1 hr2 a.1 a.2 b.1 b.2
+  · have a := hc' rfl
+    simp only [tr, Bool.false_eq_true, if_false, if_true]
+    exact shiftPart_rowAbs cn rn dCol dRow hc1 hc2 hr1 hr2 a.1 a.2
+  · have b := hr' rfl
+    simp only [tr, Bool.false_eq_true, if_false, if_true]
+    exact shiftPart_colAbs cn rn dCol dRow hc1 hc2 hr1 hr2 b.1
+  · simp only [if_true]
+    exact shiftPart_absolute cn rn dCol dRow hc1 hc2 hr1 hr2
+
+/-- whole columns and whole rows in a shared formula: relative ones are translated, `$` ones kept
+(`B:D` at offset (2,5) → `D:F`, `$B:D` → `$B:F`, `3:$4` → `8:$4`) -/
+theorem shared_whole_rows_cols :
+    Impl.shiftCell 2 5 ['B', ':', 'D'] = ['D', ':', 'F'] ∧
+    Impl.shiftCell 2 5 ['$', 'B', ':', 'D'] = ['$', 'B', ':', 'F'] ∧
+    Impl.shiftCell 2 5 ['3', ':', '$', '4'] = ['8', ':', '$', '4'] := by
+  decide +kernel
+
+/-- **shared_prefixed_operand_not_translated** (observation, not a C07 violation: the text is what
+`GetCellFormula`/`CalcCellValue` already showed before any edit, and `expandSharedFormulas` freezes
+exactly that text) — cell.go's `shiftCell` does not recognise a part that carries a sheet prefix: in a
+cell two rows below the master `Sheet1!A1` stays `Sheet1!A1` (Excel: `Sheet1!A3`), and of
+`Sheet1!A1:B2` only the second corner moves. Reproduced by the transcript op `shf`. -/
+theorem shared_prefixed_operand_not_translated :
+    Impl.shiftCell 0 2 ['S', '!', 'A', '1'] = ['S', '!', 'A', '1'] ∧
+    Impl.shiftCell 0 2 ['S', '!', 'A', '1', ':', 'B', '2'] = ['S', '!', 'A', '1', ':', 'B', '4'] := by
+  decide +kernel
+
+/-! ## Data-validation formulas: rewritten through the XML escaping -/
+
+/-- the escaping used for data-validation formulas loses nothing -/
+theorem dv_unescape_escape (s : Str) : Impl.unescapeXML (Impl.escapeXML s) = s := unescape_escape s
+
+/-- **dv_wrapper_transparent** — clause "data-validation rules": `adjustDataValidations` rewrites the
+UNESCAPED formula with the same `adjustFormulaRef` as a cell formula and stores it escaped again, so
+what `GetDataValidations` (and Excel) read after the edit is exactly the rewrite of what they read
+before; a quoted literal list (`&quot;…&quot;`) is not touched. Tied by the transcript op `dvw` (the
+stored text is taken from the saved package). -/
+theorem dv_wrapper_transparent (env : Impl.Env) (content v : Str) (toks : List Token)
+    (h : Impl.adjustDV env content toks = some v) :
+    (Impl.isFormulaDV content = true ∧
+      Impl.unescapeXML v = (Impl.adjustRef { env with formula := Impl.unescapeXML content } toks).1) ∨
+    (Impl.isFormulaDV content = false ∧ v = content) := by
+  unfold Impl.adjustDV at h
+  by_cases hf : Impl.isFormulaDV content = true
+  · left
+    simp only [hf, if_true] at h
+    refine ⟨hf, ?_⟩
+    cases hr : Impl.adjustRef { env with formula := Impl.unescapeXML content } toks with
+    | mk val er =>
+      cases er with
+      | none => simp [hr] at h; rw [← h, unescape_escape]
+      | some x => simp [hr] at h
+  · right
+    have hf' : Impl.isFormulaDV content = false := by simpa using hf
+    simp only [hf', Bool.false_eq_true, if_false, Option.some.injEq] at h
+    exact ⟨hf', h.symm⟩
 
 /-! ## Where the current code does not satisfy the full statement -/
 
